@@ -136,9 +136,10 @@ class Visitor(ast.NodeVisitor):
         """Represent the call by dumping its source code."""
         if node in self._recomputed_values:
             value = self._recomputed_values[node]
-            text = self._atok.get_text(node)
 
-            self.reprs[text] = value
+            if _representable(value=value):
+                text = self._atok.get_text(node)
+                self.reprs[text] = value
 
         self.generic_visit(node=node)
 
@@ -146,9 +147,10 @@ class Visitor(ast.NodeVisitor):
         """Represent the list comprehension by dumping its source code."""
         if node in self._recomputed_values:
             value = self._recomputed_values[node]
-            text = self._atok.get_text(node)
 
-            self.reprs[text] = value
+            if _representable(value=value):
+                text = self._atok.get_text(node)
+                self.reprs[text] = value
 
         self.generic_visit(node=node)
 
@@ -156,9 +158,10 @@ class Visitor(ast.NodeVisitor):
         """Represent the set comprehension by dumping its source code."""
         if node in self._recomputed_values:
             value = self._recomputed_values[node]
-            text = self._atok.get_text(node)
 
-            self.reprs[text] = value
+            if _representable(value=value):
+                text = self._atok.get_text(node)
+                self.reprs[text] = value
 
         self.generic_visit(node=node)
 
@@ -166,9 +169,10 @@ class Visitor(ast.NodeVisitor):
         """Represent the dictionary comprehension by dumping its source code."""
         if node in self._recomputed_values:
             value = self._recomputed_values[node]
-            text = self._atok.get_text(node)
 
-            self.reprs[text] = value
+            if _representable(value=value):
+                text = self._atok.get_text(node)
+                self.reprs[text] = value
 
         self.generic_visit(node=node)
 
@@ -176,9 +180,10 @@ class Visitor(ast.NodeVisitor):
         """Represent the subscript with its source code."""
         if node in self._recomputed_values:
             value = self._recomputed_values[node]
-            text = self._atok.get_text(node)
 
-            self.reprs[text] = value
+            if _representable(value=value):
+                text = self._atok.get_text(node)
+                self.reprs[text] = value
 
         self.generic_visit(node=node)
 
@@ -633,6 +638,9 @@ def repr_values(condition: Callable[..., bool], lambda_inspection: Optional[Cond
         if isinstance(value, icontract._recompute.FirstExceptionInAll):
             writing = ['{} was False, e.g., with'.format(key)]
             for input_name, input_value in value.inputs:
+                if not _representable(value=input_value):
+                    continue
+
                 writing.append('\n')
                 writing.append('  {} = {}'.format(input_name, a_repr.repr(input_value)))
 
